@@ -198,8 +198,9 @@ class Ctx:
             raise Infra("go build %s failed:\n%s" % (cmd, p.stdout[-4000:]))
         return out
 
-    def harness(self, binpath, args, timeout=900, env=None, stdin=None, allow_fail=False):
-        """Run a harness binary; returns (records, returncode, stderr_tail)."""
+    def harness(self, binpath, args, timeout=900, env=None, stdin=None, allow_fail=False, stderr_to=None):
+        """Run a harness binary; returns (records, returncode, stderr_tail).
+        stderr_to: path that receives the complete stderr (race detector reports)."""
         e = dict(os.environ)
         if env:
             e.update(env)
@@ -208,6 +209,9 @@ class Ctx:
             try:
                 p = subprocess.run([binpath] + [str(a) for a in args], env=e, stdout=fh,
                                    stderr=subprocess.PIPE, timeout=timeout, input=stdin)
+                if stderr_to:
+                    with open(stderr_to, "wb") as efh:
+                        efh.write(p.stderr)
                 rc, err = p.returncode, p.stderr.decode(errors="replace")[-4000:]
             except subprocess.TimeoutExpired as ex:
                 rc, err = 124, "harness timeout"
